@@ -79,6 +79,17 @@ def _worker(args):
     return res
 
 
+def _die_with_parent():
+    """workers must not outlive a killed parent (timeouts of the harness that runs the checks)"""
+    try:
+        import ctypes
+        import signal
+
+        ctypes.CDLL("libc.so.6").prctl(1, signal.SIGKILL)  # PR_SET_PDEATHSIG
+    except Exception:
+        pass
+
+
 def merge(results):
     tot = {"violations": [], "samples": [], "outcomes": {}, "capped": False}
     for r in results:
@@ -122,7 +133,7 @@ def pmap(modname, shard_list, tier, jobs=None):
     if jobs <= 1 or len(args) <= 1:
         return [_worker(a) for a in args]
     ctx = mp.get_context("fork")
-    with ctx.Pool(min(jobs, len(args)), maxtasksperchild=None) as pool:
+    with ctx.Pool(min(jobs, len(args)), initializer=_die_with_parent, maxtasksperchild=None) as pool:
         return list(pool.imap_unordered(_worker, args, chunksize=1))
 
 
